@@ -377,6 +377,7 @@ impl<'a> IExec<'a> {
             IAmt::Lit(v) => *v as i128,
             IAmt::Balance => bal,
             IAmt::BalancePlus1 => bal.saturating_add(1),
+            IAmt::Wide(k) => [(1i128 << 64) + 5, -(1i128 << 64) + 7, i128::MIN + 9, i128::MAX, (1i128 << 32) + 3, (1i128 << 96) + 1][*k as usize % 6],
         };
         let dchain = self.chain(chain);
         let dbytes = DSTS[dst as usize % DSTS.len()];
